@@ -5,20 +5,29 @@ Tie: real formatEvent / flattenEvent / eventAsJSON / eventFromJSON (and string.F
 model TwistedModel/Log/FlatFormat.lean.  Oracle: the three texts produced by the REAL code must be equal
 whenever the original event formats at all (independent of the model).
 """
+import io
 import string
 
-from twisted.logger import formatEvent
+from twisted.logger import Logger, LogLevel, LogPublisher, formatEvent, jsonFileLogObserver
+from twisted.logger._flatten import extractField
 from twisted.logger._flatten import flatFormat, flattenEvent
 from twisted.logger._format import formatWithCall
 from twisted.logger._json import eventAsJSON, eventFromJSON
 
-HEADLINE = "TwistedProps.C56.flat_equals_original_partial / json_equals_original_partial / spec_dropped_counterexample"
+HEADLINE = ("TwistedProps.C56.flat_equals_original_partial / json_equals_original_partial / spec_dropped_counterexample / "
+            "hooks_flat_and_json_equal_original_partial (re-entrant values: flatteners_are_private)")
 RULE = ("events = value trees (str incl. quotes/backslash/non-ASCII, int, bool, None, lists, str-keyed dicts, objects with "
         "fixed str/repr texts, attributes and pure callables) + format strings built from the grammar: literals with "
         "'{{'/'}}', fields that walk the event (.attr, [idx], [key], () at the end and in the middle), conversions "
         "none/s/r/a/bad, repeated fields, format specs (int and str mini-language, nested '{w}'), broken lookups, and a "
-        "stream of malformed format strings over '{}[]!:.()'; distinct = (mode, lookup kinds used, conversions, "
-        "spec?, repeated?, outcome classes of original/flat/json)")
+        "stream of malformed format strings over '{}[]!:.()'; a quarter of the cases are RE-ENTRANT (mode reent): field "
+        "values that are hooks — objects whose __str__/__repr__/__call__/__getattr__ run a script through "
+        "twisted.logger itself (formatEvent of a flattened / JSON-loaded / raw inner event, flattenEvent+formatEvent, "
+        "eventAsJSON, extractField, Logger.emit into a jsonFileLogObserver; hooks nested in inner events up to 3 deep; "
+        "oracle-only variant: a hook that keeps and flattens ONE inner event) — placed as fields, attributes or call "
+        "results, followed by fields that repeat earlier (field, conversion) pairs or share names with the inner "
+        "events; distinct = (mode, lookup kinds used, conversions, spec?, repeated?, hook action kinds / shared keys?, "
+        "outcome classes of original/flat/json)")
 ASSUMES = [
     "log_format is a str (flattenEvent raises TypeError on bytes formats: string.Formatter.parse(bytes))",
     "the event is not already flattened by someone else and format fields do not name log_flattened",
@@ -28,6 +37,13 @@ ASSUMES = [
     "__format__); an object whose __format__('') differs from its str() is exercised oracle-only",
     "dict keys inside values are str; bytes and float values are exercised ORACLE-ONLY (no Lean counterpart; added "
     "after seeded change C56-1 was missed); no Failure/LogLevel values",
+    "re-entrant values (hooks) are deterministic by construction: every action works on a fresh copy of its inner event "
+    "or on a read-only prepared one, and reports exceptions as text; the reserved attribute names \\x01S/\\x01R/\\x01L that "
+    "carry a hook's scripts to the model are not named by format fields; lists/dicts do not contain hooks; in the model "
+    "the unflattened path formatWithCall (which creates no KeyFlattener) is the pure function — the heap effects of hooks "
+    "evaluated inside it are not threaded; a hook that mutates its own persistent inner event, and Logger.emit's extra "
+    "log_* keys, are exercised ORACLE-ONLY / modelled as eventAsJSON of the bare event; no threads (two threads "
+    "flattening at once is the same interference, not generated)",
     "str.isprintable() is approximated in the concrete repr oracle for the code points the generator uses",
 ]
 TRUSTED = ["CPython string.Formatter.parse / formatter_field_name_split as transcribed in the model (tied by the 'parse' "
@@ -39,7 +55,12 @@ MANIFEST = {
             "flattened event — and the event after eventAsJSON/eventFromJSON — format to the same text (invariant over the "
             "flatten loop: every flattened-shape key holds the text of its own field; key-shape disjointness of "
             "'name!c:' and 'name!:' keys incl. '/n' suffixes). Format specs are dropped by flattenEvent/flatFormat: "
-            "counterexample theorem for '{n:05d}' + known finding. Model tied to the real code on every run.",
+            "counterexample theorem for '{n:05d}' + known finding. Re-entrancy (FlatReent.lean, every KeyFlattener() an "
+            "allocation in an explicit heap; field evaluation = arbitrary heap-extending effect): flatteners_are_private "
+            "(flattenEvent/formatEvent/eventAsJSON round trip/extractField return what the pure functions return in every "
+            "heap and leave all earlier flatteners untouched), nextOps_good (objects whose str/repr/call/getattr run the "
+            "machinery again are such effects, at any nesting depth), hence the property for events with such values "
+            "(reentrant_*_partial, hooks_flat_and_json_equal_original_partial). Model tied to the real code on every run.",
     "note": "partial: fields with a non-empty format spec are excluded (the code drops them — finding format-spec-dropped); "
             "trusts Lean kernel, the hand-written model (differentially tied), CPython str.format internals as transcribed",
     "technique": "Lean 4 proof (loop invariant + key-shape lemmas) + differential tie + independent oracle",
@@ -77,7 +98,29 @@ def enc_spec(v):
         s, r, attrs, ret = x
         return ("O" + enc_text(s) + enc_text(r) + "".join("k" + enc_text(kk) + enc_spec(vv) for kk, vv in attrs) + "e"
                 + ("n" if ret is None else "c" + enc_spec(ret)))
+    if k == "h":
+        s, r, attrs, ret, S, R, L = x
+        res = [[RES_S, _enc_script(S)], [RES_R, _enc_script(R)], [RES_L, _enc_script(L)]]
+        return ("O" + enc_text(s) + enc_text(r) + "".join("k" + enc_text(kk) + enc_spec(vv) for kk, vv in attrs)
+                + "".join("k" + enc_text(kk) + vv for kk, vv in res) + "e"
+                + ("n" if ret is None else "c" + enc_spec(ret)))
     raise ValueError(k)
+
+
+# a re-entrant object ("hook") travels to the model as an object with three reserved attributes holding its scripts
+RES_S, RES_R, RES_L = "\x01S", "\x01R", "\x01L"
+
+
+def _enc_ev(e):
+    return "D" + "k" + enc_text("log_format") + "T" + enc_text(e["fmt"]) + \
+        "".join("k" + enc_text(k) + enc_spec(v) for k, v in e["fields"]) + "e"
+
+
+def _enc_script(sc):
+    out = "L"
+    for kind, prep, field, e in sc:
+        out += "L" + "T" + enc_text(kind) + "T" + enc_text(prep) + "T" + enc_text(field) + _enc_ev(e) + "e"
+    return out + "e"
 
 
 def enc_py(v):
@@ -129,6 +172,114 @@ class FObj(Obj):
         return "<fmt:" + spec + ">"
 
 
+class _Raised:
+    def __init__(self, e):
+        self.name = "!" + type(e).__name__
+
+
+def _prep(prep, e):
+    """the inner event an action works on: as given, flattened, or loaded back from JSON"""
+    try:
+        ev = event_of(e)
+        if prep == "flat":
+            flattenEvent(ev)
+        elif prep == "json":
+            ev = eventFromJSON(eventAsJSON(ev))
+        return ev
+    except Exception as ex:
+        return _Raised(ex)
+
+
+def _piece_fmt(ev):
+    out = formatEvent(ev)
+    return "!unformattable" if out.startswith("Unable to format event") else out
+
+
+class _Action:
+    """one step of a hook's script: something a __str__/__repr__/__call__/__getattr__ body does with twisted.logger"""
+
+    def __init__(self, kind, prep, field, e):
+        self.kind, self.prep, self.field, self.e = kind, prep, field, e
+        # read-only prepared inner events are built once (outside any flatten call)
+        self.fixed = _prep(prep, e) if (kind in ("fmt", "extract") and prep != "raw") else None
+        self.persistent = event_of(e) if kind == "mutfmt" else None
+
+    def run(self):
+        k = self.kind
+        try:
+            if k == "fmt":
+                ev = self.fixed if self.fixed is not None else event_of(self.e)
+                if isinstance(ev, _Raised):
+                    return ev.name
+                return _piece_fmt(ev)
+            if k == "json":
+                eventAsJSON(event_of(self.e))
+                return ""
+            if k == "flatfmt":
+                ev = event_of(self.e)
+                flattenEvent(ev)
+                return _piece_fmt(ev)
+            if k == "extract":
+                ev = self.fixed if self.fixed is not None else event_of(self.e)
+                if isinstance(ev, _Raised):
+                    return ev.name
+                return str(extractField(self.field, ev))
+            if k == "log":
+                ev = event_of(self.e)
+                fmt = ev.pop("log_format")
+                log = Logger(namespace="c56", observer=LogPublisher(jsonFileLogObserver(io.StringIO())))
+                log.emit(LogLevel.info, fmt, **ev)
+                return ""
+            if k == "mutfmt":          # oracle-only: the hook keeps ONE inner event and flattens it after first use
+                out = _piece_fmt(self.persistent)
+                try:
+                    flattenEvent(self.persistent)
+                except Exception:
+                    pass
+                return out
+        except Exception as ex:
+            return "!" + type(ex).__name__
+        raise ValueError(k)
+
+
+def _run(script):
+    return "".join(a.run() for a in script)
+
+
+class Hook:
+    """an object whose str()/repr()/attribute access goes through twisted.logger's flatten machinery"""
+
+    def __init__(self, s, r, attrs, S, R, L):
+        d = self.__dict__
+        d["_C56"] = (s, r)
+        d["_C56attrs"] = dict(attrs)
+        d["_C56S"], d["_C56R"], d["_C56L"] = S, R, L
+
+    def __str__(self):
+        return self._C56[0] + _run(self._C56S)
+
+    def __repr__(self):
+        return self._C56[1] + _run(self._C56R)
+
+    def __getattr__(self, name):
+        d = self.__dict__
+        _run(d["_C56L"])
+        try:
+            return d["_C56attrs"][name]
+        except KeyError:
+            raise AttributeError(name)
+
+
+class CHook(Hook):
+    def __init__(self, s, r, attrs, S, R, L, ret):
+        Hook.__init__(self, s, r, attrs, S, R, L)
+        self.__dict__["_C56ret"] = ret
+
+    def __call__(self):
+        _run(self._C56L)
+        return self._C56ret
+
+
 def build(v):
     (k, x), = v.items()
     if k in ("t", "i", "b"):
@@ -143,6 +294,11 @@ def build(v):
         s, r, attrs, ret = x
         at = [(kk, build(vv)) for kk, vv in attrs]
         return Obj(s, r, at) if ret is None else CObj(s, r, at, build(ret))
+    if k == "h":
+        s_, r_, attrs, ret, S, R, L = x
+        at = [(kk, build(vv)) for kk, vv in attrs]
+        sc = [[_Action(*a) for a in q] for q in (S, R, L)]
+        return Hook(s_, r_, at, *sc) if ret is None else CHook(s_, r_, at, *sc, build(ret))
     if k == "fo":
         return FObj(x[0], x[1], [])
     if k == "y":                      # bytes value (oracle-only: no Lean counterpart)
@@ -326,6 +482,44 @@ def I(n):
     return {"i": n}
 
 
+def H(s, r, S=(), R=(), L=(), attrs=(), ret=None):
+    return {"h": [s, r, [list(a) for a in attrs], ret, [list(a) for a in S], [list(a) for a in R], [list(a) for a in L]]}
+
+
+def _reent_corpus():
+    """re-entrant field values (seeded change C56-2): a field whose text is produced by going through the flatten
+    machinery again, followed by a repeated field / a field sharing its key with the inner event"""
+    disk = {"fmt": "disk {disk} at {pct}%", "fields": [["disk", T("sda")], ["pct", I(91)]]}
+    low = {"fmt": "{host} is low on disk", "fields": [["host", T("db7")]]}
+    polled = {"fmt": "pool {pool} polled, pool size {size}", "fields": [["pool", T("p0")], ["size", I(3)]]}
+    rep = {"fmt": "{a} {a!r} {a}", "fields": [["a", T("q'")]]}
+    nested = {"fmt": "<{rec}> {a} {rec!r}", "fields": [["a", I(7)], ["rec", H("n-", "N-", S=[["fmt", "json", "", rep]], R=[["json", "", "", rep]])]]}
+    out = []
+    for prep in ("json", "flat", "raw"):
+        out.append({"op": "all", "fmt": "{host}: forwarding <{record}> received from {host}",
+                    "fields": [["host", T("db1")], ["record", H("", "", S=[["fmt", prep, "", disk]], R=[["fmt", prep, "", disk]])]]})
+    out += [
+        {"op": "all", "fmt": "<{record}> relayed by {host}",
+         "fields": [["host", T("gw")], ["record", H("", "", S=[["fmt", "json", "", low]])]]},
+        {"op": "all", "fmt": "{name}: {pool.status()} ({name})",
+         "fields": [["name", T("p0")], ["pool", {"o": ["P", "<P>", [["status", H("st", "<st>", L=[["log", "", "", polled]], ret=T("3 idle"))]], None]}]]},
+        {"op": "all", "fmt": "{name}: {pool()} ({name}) {name}",
+         "fields": [["name", T("p0")], ["pool", H("st", "<st>", L=[["json", "", "", polled]], ret=T("3 idle"))]]},
+        {"op": "all", "fmt": "{a} {h.m} {a} {h!r} {a!r} {h} {a!r}",
+         "fields": [["a", T("v")], ["h", H("hs", "hr", S=[["flatfmt", "", "", rep]], R=[["extract", "raw", "a!r", rep]],
+                                           L=[["extract", "json", "a", rep], ["json", "", "", rep]], attrs=[["m", I(5)]])]]},
+        {"op": "all", "fmt": "{a} {h} {a} {h!a} {a}",
+         "fields": [["a", I(1)], ["h", H("é", "€", S=[["extract", "flat", "nope", rep]], R=[["fmt", "flat", "", nested]])]]},
+        {"op": "all", "fmt": "{a} {rec} {a} {rec!r} {a}", "fields": nested["fields"]},
+        {"op": "all", "fmt": "{a} {o.m} {a} {f()} {a}",
+         "fields": [["a", I(1)], ["o", {"o": ["o-s", "o-r", [["m", H("x", "y", S=[["json", "", "", rep]])]], None]}],
+                    ["f", {"o": ["f-s", "f-r", [], H("x", "y", S=[["fmt", "json", "", rep]])]}]]},
+        {"op": "all", "fmt": "{a} {h} {a} {h} {a}", "oracle_only": True,
+         "fields": [["a", T("v")], ["h", H("m", "m", S=[["mutfmt", "", "", rep]])]]},
+    ]
+    return out
+
+
 def corpus():
     o = {"o": ["O-str", "O-repr", [["a", I(5)], ["f", {"o": ["f-s", "f-r", [], {"o": ["r-s", "r-r", [["y", I(5)]], None]}]}]], None]}
     fn = {"o": ["fn-s", "<fn>", [], {"o": ["r-s", "r-r", [["y", T("why")]], None]}]}
@@ -351,6 +545,7 @@ def corpus():
         {"op": "all", "fmt": "{x:{w:{v}}}", "fields": [["x", I(1)], ["w", I(2)], ["v", I(3)]]},
         {"op": "all", "fmt": "{x", "fields": [["x", I(1)]]},
         {"op": "all", "fmt": "{x} }", "fields": [["x", I(1)]]},
+    ] + _reent_corpus() + [
         {"op": "parse", "s": "a{{b}}{x[a:b!r]!r:>{w}}{y!s}}}{"},
         {"op": "parse", "s": "{x[}"},
         {"op": "parse", "s": "{a!r"},
@@ -402,8 +597,8 @@ def _path(rng, name, v, midcall, broken):
             out += rng.choice([".nope", "[99]", "[zz]", "()", ".", "[", "[]", "]x", ".a.", "..a"])
             return out, None
         stop = rng.random() < 0.3
-        if k == "o":
-            s, r, attrs, ret = v["o"]
+        if k in ("o", "h"):
+            s, r, attrs, ret = v[k][:4]
             if ret is not None and not after_bracket and rng.random() < 0.6:
                 out += "()"
                 v = ret
@@ -412,7 +607,7 @@ def _path(rng, name, v, midcall, broken):
                     return out, v
                 after_bracket = False
                 # after "()" only '.'/'[' segments make sense; loop continues on the returned value
-                if _kind(v) == "o" and v["o"][3] is not None:
+                if _kind(v) in ("o", "h") and v[_kind(v)][3] is not None:
                     return out, v             # "x()()" is not call syntax
                 continue
             if attrs and not stop:
@@ -508,6 +703,130 @@ def _gen_all(rng, mode):
     return c
 
 
+def _has(v, kinds):
+    return any(('"%s"' % k) in json.dumps(v) for k in kinds)
+
+
+def _val_m(rng, depth):
+    """a value the Lean model knows (no bytes / float leaves)"""
+    while True:
+        v = _val(rng, depth)
+        if not _has(v, ("y", "f")):
+            return v
+
+
+HOOK_ALPHA = TEXT_ALPHA[:14]
+
+
+def _inner_event(rng, depth, shared):
+    """a small spec-free event for a hook to work on; its field names (and so its flatten keys) are drawn
+    from the names the outer event uses, so that inner and outer keys coincide"""
+    pool = list(dict.fromkeys(shared + NAMES[:3]))
+    names = rng.sample(pool, min(len(pool), rng.randint(1, 3)))
+    fields = []
+    for k in names:
+        if depth > 0 and rng.random() < 0.25:
+            fields.append([k, _hook(rng, depth - 1, shared)])
+        else:
+            fields.append([k, _val_m(rng, 1)])
+    refs = []
+    for _ in range(rng.randint(1, 3)):
+        k, v = rng.choice(fields)
+        name, _fin = _path(rng, k, v, False, False)
+        conv = rng.choice([None, None, None, "s", "r", "r", "a"])
+        refs.append("{" + name + ("!" + conv if conv else "") + "}")
+    if rng.random() < 0.5:
+        refs += [rng.choice(refs) for _ in range(rng.randint(1, 2))]
+    if rng.random() < 0.08:
+        refs.append(rng.choice(["{nope}", "{" + names[0] + ".zz}", "{" + names[0] + "[0]}"]))
+    fmt = _literal(rng)
+    for r in refs:
+        fmt += r + _literal(rng)
+    return {"fmt": fmt, "fields": fields}
+
+
+def _action(rng, depth, shared, mut=False):
+    e = _inner_event(rng, depth, shared)
+    r = rng.random()
+    if mut and r < 0.3:
+        return ["mutfmt", "", "", e]
+    if r < 0.35:
+        return ["fmt", rng.choice(["flat", "json", "json", "raw"]), "", e]
+    if r < 0.55:
+        return ["json", "", "", e]
+    if r < 0.7:
+        return ["flatfmt", "", "", e]
+    if r < 0.85:
+        fields = [n for _, n, _, cv in string.Formatter().parse(e["fmt"]) if n is not None] or ["nope"]
+        f = rng.choice(fields) + rng.choice(["", "", "!r", "!s", "!a"])
+        return ["extract", rng.choice(["raw", "flat", "json"]), f, e]
+    return ["log", "", "", e]
+
+
+def _script(rng, depth, shared, p, mut=False):
+    if rng.random() >= p:
+        return []
+    return [_action(rng, depth, shared, mut) for _ in range(rng.choice([1, 1, 1, 2]))]
+
+
+def _hook(rng, depth, shared, mut=False):
+    attrs = [[k, _val_m(rng, 1)] for k in rng.sample(NAMES, rng.randint(0, 2))]
+    ret = _val_m(rng, 1) if rng.random() < 0.5 else None
+    S = _script(rng, depth, shared, 0.7, mut)
+    R = _script(rng, depth, shared, 0.5, mut)
+    L = _script(rng, depth, shared, 0.6 if (ret is not None or attrs) else 0.0, mut)
+    if not (S or R or L):
+        S = [_action(rng, depth, shared, mut)]
+    return {"h": [_text(rng, alpha=HOOK_ALPHA), _text(rng, alpha=HOOK_ALPHA), attrs, ret, S, R, L]}
+
+
+def _gen_reent(rng, mut=False):
+    """an outer event with plain fields and re-entrant objects; the fields referenced AFTER a re-entrant one repeat
+    earlier (field, conversion) pairs of the outer event or use the names the inner events use"""
+    nplain = rng.randint(1, 3)
+    used = rng.sample(NAMES, nplain)
+    fields = [[k, _val_m(rng, 2)] for k in used]
+    hooks = []
+    for hn in rng.sample(["h", "rec", "pool"], rng.choice([1, 1, 2])):
+        hk = _hook(rng, rng.choice([0, 0, 1, 2]), used, mut)
+        r = rng.random()
+        if r < 0.6:
+            fields.append([hn, hk])
+        elif r < 0.8:           # the hook is an attribute of a plain object
+            fields.append([hn, {"o": ["o-s", "o-r", [["m", hk]], None]}])
+        else:                   # the hook is what a plain callable returns
+            fields.append([hn, {"o": ["o-s", "o-r", [], hk]}])
+        hooks.append(fields[-1])
+    rng.shuffle(fields)
+
+    def ref(k, v, force_conv=False):
+        name, _fin = _path(rng, k, v, rng.random() < 0.3, False)
+        conv = rng.choice([None, None, "s", "r", "r", "a"])
+        return "{" + name + ("!" + conv if conv else "") + "}"
+    plain = [f for f in fields if f not in hooks]
+    before = [ref(*rng.choice(plain)) for _ in range(rng.randint(0, 2))]
+    mid = [ref(*rng.choice(hooks)) for _ in range(rng.randint(1, 2))]
+    after = []
+    for _ in range(rng.randint(1, 3)):
+        r = rng.random()
+        if r < 0.5 and before:
+            after.append(rng.choice(before))            # repeats an earlier field of the outer event
+        elif r < 0.7:
+            after.append(rng.choice(mid))               # the re-entrant field again
+        else:
+            after.append(ref(*rng.choice(plain)))       # a (possibly shared-name) later field
+    refs = before + mid + after
+    if rng.random() < 0.15:
+        rng.shuffle(refs)
+    fmt = _literal(rng)
+    for r in refs:
+        fmt += r + _literal(rng)
+    c = {"op": "all", "fmt": fmt, "fields": fields, "mode": "reent-mut" if mut else "reent"}
+    if mut:
+        c["oracle_only"] = True
+    return c
+
+
 MALFORMED_ALPHA = ["{", "}", "{", "}", "[", "]", "!", ":", ".", "(", ")", "a", "b", "0", " ", "r"]
 
 
@@ -516,7 +835,9 @@ def generate(rng, tier):
     modes = ["plain"] * 8 + ["spec"] * 3 + ["ascii", "midcall", "broken", "broken"]
     for i in range(n):
         r = rng.random()
-        if r < 0.8:
+        if r < (0.25 if tier == "quick" else 0.15):
+            yield _gen_reent(rng, mut=rng.random() < 0.12)
+        elif r < 0.8:
             yield _gen_all(rng, rng.choice(modes))
         elif r < 0.9:
             yield {"op": "parse", "s": _text(rng, rng.randint(0, 10), MALFORMED_ALPHA)}
@@ -555,6 +876,19 @@ def shrink(c):
             yield dict(base, fmt=fmt, fields=fields[:i] + [[k, T(v["t"][1:])]] + fields[i + 1:])
         if kind in ("l", "d") and v[kind]:
             yield dict(base, fmt=fmt, fields=fields[:i] + [[k, {kind: v[kind][1:]}]] + fields[i + 1:])
+        if kind == "h":
+            h = v["h"]
+            for j in (4, 5, 6):              # drop one action of one script
+                for a in range(len(h[j])):
+                    h2 = list(h)
+                    h2[j] = h[j][:a] + h[j][a + 1:]
+                    yield dict(base, fmt=fmt, fields=fields[:i] + [[k, {"h": h2}]] + fields[i + 1:])
+            for j in (4, 5, 6):              # shrink the inner event of an action
+                for a, (akind, prep, field, e) in enumerate(h[j]):
+                    for sub in shrink({"op": "all", "fmt": e["fmt"], "fields": e["fields"]}):
+                        h2 = list(h)
+                        h2[j] = h[j][:a] + [[akind, prep, field, {"fmt": sub["fmt"], "fields": sub["fields"]}]] + h[j][a + 1:]
+                        yield dict(base, fmt=fmt, fields=fields[:i] + [[k, {"h": h2}]] + fields[i + 1:])
 
 
 def tag(c, out):
@@ -570,4 +904,55 @@ def tag(c, out):
     def cls(r):
         return "ok" if r.startswith("ok:") else r
     oc = "/".join(cls(p.get(k, "?")) for k in ("orig", "flat", "json"))
-    return f"{c.get('mode', 'corpus')}:{look}:{convs}:{spec}{rep}:{min(len(fs), 4)}:{oc}"
+    hk = _hook_info(c["fields"])
+    code = {"fmt:flat": "F", "fmt:json": "J", "fmt:raw": "W", "json": "j", "flatfmt": "t", "extract:raw": "x",
+            "extract:flat": "X", "extract:json": "Y", "log": "l", "mutfmt": "m"}
+    hooks = ("H" + "".join(sorted(code.get(a, "?") for a in hk)) + ("K" if _shares_keys(c) else "")) if hk else ""
+    return f"{c.get('mode', 'corpus')}:{look}:{convs}:{spec}{rep}{hooks}:{min(len(fs), 4)}:{oc}"
+
+
+def _hook_info(x, acc=None):
+    """the set of (action kind + prep) used by the hooks inside a value tree"""
+    acc = set() if acc is None else acc
+    if isinstance(x, dict):
+        if "h" in x and isinstance(x["h"], list) and len(x["h"]) == 7:
+            for sc in x["h"][4:]:
+                for kind, prep, field, e in sc:
+                    acc.add(kind + (":" + prep if prep else ""))
+                    _hook_info(e["fields"], acc)
+            _hook_info(x["h"][2], acc)
+            _hook_info(x["h"][3], acc)
+        else:
+            for v in x.values():
+                _hook_info(v, acc)
+    elif isinstance(x, list):
+        for v in x:
+            _hook_info(v, acc)
+    return acc
+
+
+def _inner_fmts(x, acc):
+    if isinstance(x, dict):
+        if "h" in x and isinstance(x["h"], list) and len(x["h"]) == 7:
+            for sc in x["h"][4:]:
+                for kind, prep, field, e in sc:
+                    acc.append(e["fmt"])
+                    _inner_fmts(e["fields"], acc)
+            _inner_fmts(x["h"][2], acc)
+            _inner_fmts(x["h"][3], acc)
+        else:
+            for v in x.values():
+                _inner_fmts(v, acc)
+    elif isinstance(x, list):
+        for v in x:
+            _inner_fmts(v, acc)
+    return acc
+
+
+def _shares_keys(c):
+    """does the outer format repeat a field, or share a (field, conversion) with an inner event?"""
+    outer = [(n, cv or "s") for n, s, cv in _fields_of(c["fmt"])]
+    if len(set(outer)) < len(outer):
+        return True
+    inner = {(n, cv or "s") for f in _inner_fmts(c["fields"], []) for n, s, cv in _fields_of(f)}
+    return bool(inner & set(outer))
